@@ -464,3 +464,81 @@ def fam_ephemeral(tier, base):
 prop("C26", "ephemeral", "every schedule of register / lapse / deregister of the given length over 2-3 registrants on one key, on etcd (lapse = lease revocation) and redis (lapse = TTL elapsed in miniredis virtual time); observed after each step and a settle time longer than one heartbeat tick; non-trivial = schedules with a lapse",
      ["registrations are made with store.StartEphemeral (what RegisterService and the active node-status watcher call)", "etcd heartbeat 3 s / settle 1.4 s, redis heartbeat 2 s / settle 0.9 s; etcd ownership read back from the key's lease id; redis has no owner identity, ownership is rebuilt from the event order",
       "a pause longer than the TTL is modelled by the lapse itself (the registrant's goroutine keeps running)"])
+
+
+# =========================================================================== Store: C23 (+ C24 reference queries)
+def _sim_inputs(mod, cfg, num, depth, f, seen, timeout=3000, keep=None):
+    """Simulated behaviours printed as INPUT lines. The simulator evaluates the constraint on every
+    candidate successor, so one behaviour prints many variants of its last step: keep at most `keep`
+    of the distinct lines, spread evenly."""
+    r = verif.tlc(mod, cfg, simulate="num=%d" % num, depth=depth, workers=1, timeout=timeout)
+    if r.error:
+        raise Broken("simulation %s: %s\n%s" % (cfg, r.error, r.stdout[-2000:]))
+    n = 0
+    lines = [s for s in dict.fromkeys(r.tagged("INPUT")) if s not in seen]
+    if keep and len(lines) > keep:
+        step = len(lines) / float(keep)
+        lines = [lines[int(i * step)] for i in range(keep)]
+    for s in lines:
+        seen.add(s)
+        f.write(s + "\n")
+        n += 1
+    m = __import__("re").search(r"The number of states generated: (\d+)", r.stdout)
+    return n, int(m.group(1)) if m else 0
+
+
+@family("store")
+def fam_store(tier, base):
+    q = tier == "quick"
+    inputs, trace = base + ".in.ndjson", base + ".trace.ndjson"
+    r = verif.model_check("MC_Store", "MC_Store_small.cfg", timeout=3000)
+    seen = set()
+    with open(inputs, "w") as f:
+        n, gen = _sim_inputs("MC_Store", "MC_Store_sim.cfg", 60 if q else 1500, 16, f, seen, keep=600 if q else 40000)
+    b = verif.build_driver("storecmp")
+    verif.run_driver(b, "TestStoreDiff", env={"VERIF_INPUTS": inputs, "VERIF_TRACE": trace, "VERIF_PAR": 16}, timeout=7000)
+    os.remove(inputs)
+    viols, tr = verif.validate_trace("Trace_Store", "Trace_Store.cfg", trace, heap="16g")
+    lines = verif.read_lines(trace)
+    cnt = lambda s: sum(1 for ln in lines if s in ln)
+    refdev = sorted({v["sig"] for v in viols if v["property"] == "REF"})
+    return dict(trace=trace, viols=viols, states=r.distinct, transitions=r.generated + gen, configs=["MC_Store_small.cfg", "MC_Store_sim.cfg", "Trace_Store.cfg"], window=15,
+                exhaustive=False, traces={"*": cnt('"ev":"StoreRun"')}, samples={"*": [json.loads(x) for x in lines[:3]]},
+                nontrivial={"C23": cnt('"classE":"err"'), "C24": cnt('"ev":"StoreOp"')},
+                notes="%d TLC-simulated call sequences (14 calls each) executed on etcdv3.Mercury (embedded etcd) and redis.Rediaron (miniredis); %d calls, each followed by a full read-back of both stores, judged against the Store reference and against each other; reference deviations outside any property (diagnostic): %s" % (n, cnt('"ev":"StoreOp"'), refdev or "none"))
+
+
+_A_ST = ["etcd = store/etcdv3 on an embedded single-member etcd; redis = store/redis on miniredis (no keyspace notifications: streams are not exercised)",
+         "nodes use mock:// endpoints (always-available test nodes); TTLs in these sequences are 600 s, time does not pass (expiry is C25's subject)",
+         "limited lists are compared by size; list results as sets of id@node",
+         "where the backends disagree the reference follows etcd; a run is judged up to its first divergence"]
+prop("C23", "store", "TLC-simulated sequences of 12 API call kinds over 2 pods, 3 nodes, 4 workloads (2 apps, 2 entrypoints), 1 processing ident, incl. duplicates, missing entities, mismatched nodes, label filter, certificates; result class and full read-back compared etcd vs redis vs reference after every call; non-trivial = calls that fail on etcd", _A_ST)
+
+
+# =========================================================================== Store names: C24
+@family("store_names")
+def fam_store_names(tier, base):
+    q = tier == "quick"
+    inputs, trace = base + ".in.ndjson", base + ".trace.ndjson"
+    r = verif.model_check("MC_StoreNames", "MC_StoreNames.cfg", timeout=3000, workers=1)
+    allin = list(dict.fromkeys(r.tagged("INPUT")))
+    every = 16 if q else 1
+    sel = [x for x in allin if int(hashlib.sha256((x + str(verif.seed())).encode()).hexdigest()[:8], 16) % every == 0]
+    with open(inputs, "w") as f:
+        f.write("\n".join(sel) + "\n")
+    b = verif.build_driver("storecmp")
+    verif.run_driver_sharded(b, "TestStoreNames", inputs, trace, shards=12, timeout=7000)
+    os.remove(inputs)
+    viols, tr = verif.validate_trace("Trace_StoreNames", "Trace_StoreNames.cfg", trace, heap="16g", chunk=4000)
+    lines = verif.read_lines(trace)
+    nq = sum(ln.count('"k":"list"') + ln.count('"k":"deploy"') for ln in lines)
+    return dict(trace=trace, viols=viols, states=r.distinct, transitions=r.generated, configs=["MC_StoreNames.cfg", "Trace_StoreNames.cfg"], window=0,
+                traces={"*": len(lines)}, samples={"*": [{k: v for k, v in json.loads(x).items() if k != "queries"} for x in lines[:3]]},
+                nontrivial={"C24": nq},
+                notes="%d of %d TLC-enumerated two-workload naming scenarios (10 app x 5 entrypoint x 4 node names incl. '_', '/', leading '/', '..', '.', glob characters) whose names the request validation accepts, created on both stores; %d list / deploy-status answers judged against the record-level reference (design check: the key layout is exact for plain names)" % (len(lines), len(sel), nq))
+
+
+prop("C24", "store_names", "every ordered pair of workloads over 10 application x 5 entrypoint x 4 node names (quick: every 16th), all filter combinations of ListWorkloads and GetDeployStatus on both stores, name round-trip; non-trivial = query answers judged",
+     ["names are filtered by the real DeployOptions.Validate / Entrypoint.Validate / AddNodeOptions.Validate; only accepted names are used",
+      "status streams are not exercised on redis (miniredis has no keyspace notifications)", "stores are wiped between scenarios; one driver process per shard"])
+ALSO["C24"] = ["store"]
